@@ -82,15 +82,15 @@ def _validate_orbax_contract(rep, scratch):
     import orbax.checkpoint as ocp
     m = zoo.mlp(2, 1, (2, 2), 0)
     st = nnx.state(m)
-    path = os.path.join(scratch, "orbax_contract")
+    path = os.path.join(scratch, f"orbax_contract_{os.getpid()}")  # per process: checks may run concurrently
     shutil.rmtree(path, ignore_errors=True)
-    try:
+    import warnings
+    with warnings.catch_warnings():
+        warnings.simplefilter("ignore")
         ck = ocp.StandardCheckpointer()
         ck.save(path, st)
         ck.wait_until_finished()
         real = ocp.PyTreeCheckpointer().restore(path)
-    finally:
-        pass
 
     def keys(d, pre=()):
         out = set()
@@ -332,6 +332,45 @@ def buffer_program(cls_name, n_ops):
     return prog
 
 
+def multitask_reload_program(order, n_tasks):
+    """MultiTaskReplayBuffer: after a reload, the same generator state draws the same task and the same batch.  The
+    activation order of the tasks is concrete (it decides the iteration order of the internal set of active tasks, which
+    a reload may rebuild differently); the generator's choice position and all contents are symbolic."""
+    from rl_blox.blox import replay_buffer as rb
+
+    class PosRng:
+        """generator for the task draw: the position picked in list(active tasks) is ONE shared symbol, the other draws
+        are recorded by the first instance and replayed by the second (same generator state for both objects)"""
+
+        def __init__(self, pos, inner):
+            self.pos, self.inner = pos, inner
+
+        def choice(self, a, size=None, **kw):
+            a = list(a)
+            v = a[int(self.pos)]
+            return np.asarray([v]) if size is not None else v
+
+        def __getattr__(self, k):
+            return getattr(self.inner, k)
+
+    def prog(ctx):
+        with overlay(rb, np=NpShim(), jnp=JnpShim()):
+            mt = rb.MultiTaskReplayBuffer(rb.LAP(2), n_tasks)
+            for j, t in enumerate(order):
+                mt.select_task(t)
+                mt.add_sample(observation=[sym_real(f"o{j}")], action=sym_real(f"a{j}"), reward=sym_real(f"r{j}"), next_observation=[sym_real(f"n{j}")], termination=sym_bool(f"t{j}"))
+            clone = roundtrip(ctx, mt)
+            ctx.check(clone is not mt, "reload-gives-a-new-object")
+            pos = sym_int("choice_position", 0, len(order) - 1)
+            rng1 = RngStub("post")
+            b1 = mt.sample_batch(1, rng=PosRng(pos, rng1))
+            b2 = clone.sample_batch(1, rng=PosRng(pos, FixedRng(list(rng1.draws))))
+            ctx.check(int(mt.sampled_task_idx) == int(clone.sampled_task_idx), "multi-task:same-task-drawn-for-the-same-generator-state-after-reload")
+            for k in b1._fields:
+                _dict_equal(ctx, np.asarray(getattr(b1, k), dtype=object), np.asarray(getattr(b2, k), dtype=object), "same-sampled-batch-for-the-same-generator-state")
+    return prog
+
+
 _LAST_ADD = {}
 
 
@@ -373,6 +412,9 @@ def main(tier, seed):
     finally:
         for cls, fn in orig.items():
             setattr(getattr(rb, cls), "add_sample", fn)
+    for order, nt in (((0, 1), 2), ((1, 0), 2), ((15, 7), 16)) + ((((9, 1, 17), 18),) if tier != "quick" else ()):
+        rep.run(f"MultiTaskReplayBuffer(LAP)[tasks activated in order {order}]:save/reload", multitask_reload_program(order, nt),
+                fn="MultiTaskReplayBuffer.__reduce_ex__ + sample_batch", site_of=lambda label: f"MultiTaskReplayBuffer:{label.split(':')[-1] if label.startswith('multi-task') else label.split(':')[0]}")
     return rep.finish()
 
 
